@@ -184,7 +184,11 @@ func (s *Solver) CheckModel(extra *Term, vars []*Term) (string, map[string]uint6
 			l = strings.TrimSuffix(strings.TrimPrefix(l, "(("), "))")
 			idx := strings.LastIndex(l, " ")
 			val := l[idx+1:]
-			m[v.name] = parseVal(val)
+			if v.op == OpVar {
+				m[v.name] = parseVal(val)
+			} else {
+				m[v.ref()] = parseVal(val)
+			}
 		}
 	} else if res == "unsat" {
 		s.nUnsat++
